@@ -225,7 +225,7 @@ def scenario(doc, incdoc, use_base, boom_mode, res, rc, handler_desc):
         lk = make_lookup(main_text, inc_text, base_text)
         t = lk.get_template("main.html")
     except Exception as e:
-        if isinstance(e, SyntaxError) and c05.has_bare_star_shape(doc):
+        if isinstance(e, SyntaxError) and c05.has_bare_star_shape(doc) and ("without a default follows" in str(e) or "non-default argument follows default" in str(e)):
             res.count("skipped_c05_bare_star_finding")  # C05/bare-star-dropped: reported there, not a C13 matter
             return
         res.violate("compile-raises", "%s\nraised %s: %s" % (what, type(e).__name__, e), replay_case=rc)
